@@ -10,10 +10,10 @@ for f in os.listdir(os.path.join(w, "SEEDED")):
 m = json.load(open(os.path.join(d, "meta.json")))
 m["verif_result"] = {"caught_by": [c for c in caught.split(",") if c], "note": note}
 m["confirmed"] = "demo re-run by tools/confirm_seeded.sh in the scratch worktree: fails with the change, passes without; suite passes with the change (fuzz corpus tests excepted; the only other failing tests are the demonstration's own when it is left installed)"
-m["round"] = 3
+m["round"] = int(os.environ.get("ROUND", "3"))
 json.dump(m, open(os.path.join(d, "meta.json"), "w"), indent=1, ensure_ascii=False)
 needs = m.get("needs", ""); needs = needs if isinstance(needs, str) else json.dumps(needs)
-row = f"| `{name}` (round 3) | {m['property']} | {needs[:180].replace('|', '/').replace(chr(10), ' ')}… | {', '.join(m['verif_result']['caught_by'])} | {note} |\n"
+row = f"| `{name}` (round {m['round']}) | {m['property']} | {needs[:180].replace('|', '/').replace(chr(10), ' ')}… | {', '.join(m['verif_result']['caught_by'])} | {note} |\n"
 p = "/verif/DESIGN.md"; t = open(p).read()
 mark = "Lessons applied to the generators"
 i = t.index(mark)
